@@ -40,11 +40,19 @@ def one_workload(ctx, idx, memkb, scratch, depth, torn, nest_every):
         env["VERIF_CRASH_STEPS"] = "70"
         env.pop("VERIF_CRASH_MODE", None)
         memkb = 64
+    if ctx.prop in ("C01", "C02") and idx % 6 == 4:
+        # a heap of ~40 pages in 16 frames and one transaction that marks rows on all of them: undo (abort, recovery) and
+        # commit of a transaction that touched more pages than the pool holds
+        env["VERIF_CRASH_MODE"] = "wide"
+        memkb = 64
     rc, out = vlib.run([vlib.VDRIVE, "crash", "run", wdir, tr, ops, str(memkb)], cwd=ctx.work, env=env, timeout=300)
     if rc != 0:
         raise Inconclusive("crash run failed rc=%d\n%s" % (rc, out[-2000:]))
     ev = vlib.read_ndjson(tr)
     io0 = [e for e in ev if e["ev"] == "Ddl"][0]["io0"]
+    pf = [e for e in ev if e["ev"] == "ProbeFrom"]
+    if pf:
+        io0 = pf[0]["io0"]   # (wide mode: the committed fill of the heap is not probed)
     end = [e for e in ev if e["ev"] == "End"]
     nio = end[0]["ios"] if end else max([e["io"] for e in ev if "io" in e] + [0]) + 1
     # probes, resumable after a recorded hang
